@@ -12,7 +12,7 @@ import (
 // C19: batch authorization does not write to its inputs or to package state.
 func VerifC19_BatchNoWrite() {
 	t := c05Template()
-	ps := c05Policies()
+	ps := c05PoliciesFor(t)
 	ents := c05Entities()
 	vrt.Freeze(ps, ents, t.req)
 	var err error
